@@ -90,7 +90,7 @@ fn specs() -> Vec<CheckSpec> {
     CheckSpec {
         id: "C01",
         profile: Profile::Core,
-        more_profiles: &[],
+        more_profiles: &[Profile::TwoHop, Profile::Adaptive, Profile::Rewards],
         mk: mk_c01,
         level: "exploration",
         rule: "HIST after every landed transaction that touches a pool: (1) token conservation per mint, (2) a full drain replayed on a fork through the real handlers and the real token program - every position (random order) update-fees, decrease all, collect fees, and collect-protocol-fees at a random place; the violation is a drain instruction failing for lack of funds, (3) vault >= protocol owed + stored fees owed + exact withdrawable amounts, (4) an injected CPI failure must fail the transaction and leave the ledger byte-identical; sampled forks where a single party swaps back and forth alone / adds and removes liquidity alone must not end ahead; a case is one (instruction kind, #positions, zero liquidity, protocol fees owed, spacing, price at bound) tuple at which the drain ran",
@@ -138,7 +138,7 @@ fn specs() -> Vec<CheckSpec> {
     CheckSpec {
         id: "C08",
         profile: Profile::Core,
-        more_profiles: &[],
+        more_profiles: &[Profile::Lifecycle, Profile::Rewards],
         mk: mk_c08,
         level: "exploration",
         rule: "HIST every landed increase/decrease (v1, v2), by-token-amounts and reposition is checked from balance deltas against exact big-integer amounts (up on deposit, down on withdrawal, one-sided outside the range incl. price on a bound and the shifted state); success implies the caller's max/min was respected; a third are replayed on forks with token_max = cost / cost-1 and token_min = proceeds / proceeds+1; a quarter of the increases are followed on a fork by removing the same liquidity at the unchanged price; by-token-amounts must yield the largest liquidity that fits; a case is one (instruction, price region relative to the range, spacing, liquidity magnitude, zero-amount sides) tuple",
@@ -174,7 +174,7 @@ fn specs() -> Vec<CheckSpec> {
     CheckSpec {
         id: "C12",
         profile: Profile::Rewards,
-        more_profiles: &[],
+        more_profiles: &[Profile::T22, Profile::Lifecycle, Profile::Adaptive],
         mk: mk_c12,
         level: "exploration",
         rule: "HIST every increase/decrease (v1, v2) that lands - successful or not, including under an injected CPI failure - is re-executed on a fork of its pre-state through the Anchor implementation still in the tree (try_accounts -> Context -> handler -> exit) and through the live Pinocchio routing; success <=> success, equal program error codes (>= 6000), and on success every account byte and lamport (pool, position, both tick arrays incl. dynamic resize and rent movement, vaults, user accounts), the CPI sequence and the emitted event must be identical; every whirlpool instruction is additionally executed through both the real entrypoint and the public handlers and compared; a case is one (instruction, live outcome, twin outcome, price region, #dynamic arrays, spacing) tuple",
